@@ -329,4 +329,13 @@ def otelShape : Bool :=
   otelCompleteOf none otelPublishCompleteFlow && otelCompleteOf (some handlerErrorsAdd) otelHandlerCompleteFlow &&
   otelCompleteOf (some persistErrorsAdd) otelPersistCompleteFlow
 
+/-- SQLite migration: version 1 of the schema is created inside ONE transaction – begin, a deferred rollback that fires
+exactly when an error is being returned, every statement executed on the transaction, commit last – and only when the
+recorded version is below 1 (opening an existing database runs no schema statement outside `IF NOT EXISTS`) -/
+def migrateShape : Bool :=
+  chain [beginTx, deferO, rangeStatements, txExec, txCommit] migrateV1Flow &&
+  inside txRollback deferO migrateV1Flow && inside txRollback ifErr migrateV1Flow && count txRollback migrateV1Flow == 1 &&
+  inside txExec rangeStatements migrateV1Flow && count txCommit migrateV1Flow == 1 && topLevelUpTo txCommit 0 migrateV1Flow &&
+  inside callMigrateV1 ifOldVersion migrateFlow && count callMigrateV1 migrateFlow == 1
+
 end Ebu.Flow
